@@ -32,6 +32,20 @@ from .judge import judge
 U = 10000
 
 
+def match_ids(audios, detregs):
+    """ids of the detections whose audio was seen, in the order seen: each piece of audio is matched with the smallest not yet used
+    id of a detection holding exactly that audio (-1: no such detection)."""
+    from collections import defaultdict, deque
+    by_audio = defaultdict(deque)
+    for i_, v_ in sorted(detregs.items()):
+        by_audio[v_].append(i_)
+    out = []
+    for a in audios:
+        q = by_audio.get(a) if a is not None else None
+        out.append(q.popleft() if q else -1)
+    return out
+
+
 # ------------------------------------------------------------------------------------------------
 # one controlled execution of the real pipeline
 # ------------------------------------------------------------------------------------------------
@@ -84,22 +98,34 @@ def scenario(sc, tmproot, chooser_factory):
         def _process_message(s_, m):
             got[s_.k].append(m[0])
     regtpl = os.path.join(tmp, "det_{id}_{start:.3f}_{end:.3f}_{duration}.wav")
+    loglines = []
+    logger = None
+    if sc.get("log"):
+        import logging
+
+        class ListHandler(logging.Handler):
+            def emit(s_, record):
+                loglines.append((sched.SCHED.me() if sched.SCHED is not None else None, record.getMessage()))
+        logger = logging.Logger("verif-run")          # not registered with the manager: private to this run
+        logger.setLevel(logging.INFO)
+        logger.addHandler(ListHandler())
+    lkw = {"logger": logger} if logger is not None else {}
     for i, k in enumerate(kinds):
         if k == "rec":
             o = Rec(i + 1)
         elif k == "print":
             o = W.PrintWorker("{id} {start} {end} {duration}", "%S")
         elif k == "regsave":
-            o = W.RegionSaverWorker(regtpl)
+            o = W.RegionSaverWorker(regtpl, **lkw)
         elif k == "joiner":
             o = W.AudioEventsJoinerWorker(sc["silence"], os.path.join(tmp, f"joined{i}.wav"), None, sr, sw, ch)
         elif k == "player":
             class MockPlayer:
                 def play(self_, d, progress_bar=False, **kw):
                     played.append(bytes(d))
-            o = W.PlayerWorker(MockPlayer(), progress_bar=False)
+            o = W.PlayerWorker(MockPlayer(), progress_bar=False, **lkw)
         elif k == "command":
-            o = W.CommandLineWorker("consume {file}")
+            o = W.CommandLineWorker("consume {file}", **lkw)
         o._ctl_name = "o%d" % (i + 1)
         S.qnames[id(sched.inbox_of(o))] = o._ctl_name
         observers.append(o)
@@ -154,7 +180,7 @@ def scenario(sc, tmproot, chooser_factory):
         if sc.get("uc", "absent") != "absent":
             vkw[sc.get("uc_name", "use_channel")] = sc["uc"]
     tw = W.TokenizerWorker(src, observers, min_dur=(mn - 0.5) * w, max_dur=(mx + 0.5) * w, max_silence=(sl + 0.5) * w,
-                           drop_trailing_silence=drop, strict_min_dur=strict, **vkw)
+                           drop_trailing_silence=drop, strict_min_dur=strict, **vkw, **lkw)
     tw._ctl_name = "tok"
     S.qnames[id(sched.inbox_of(tw))] = "tok"
     stop_after = sc["stop_after"]
@@ -209,13 +235,16 @@ def scenario(sc, tmproot, chooser_factory):
             processed.append(got[i + 1])
         elif k == "print":
             ids = []
+            det_by_id = {}
+            for x in tw.detections:
+                det_by_id.setdefault(x.id, x)
             for line in printed:
                 m = re.match(r"^(\d+) (\S+) (\S+) (\S+)$", line)
                 if not m:
                     printed_ok = False
                     continue
                 ids.append(int(m.group(1)))
-                dd = next((x for x in tw.detections if x.id == int(m.group(1))), None)
+                dd = det_by_id.get(int(m.group(1)))
                 if dd is None or [m.group(2), m.group(3), m.group(4)] != ["{:.3f}".format(v) for v in (dd.start, dd.end, dd.duration)]:
                     printed_ok = False
             processed.append(ids)
@@ -243,16 +272,9 @@ def scenario(sc, tmproot, chooser_factory):
             processed.append(sorted(ids))
         elif k == "player":
             # what was played, in order, must be the detections' audio in order
-            ids = []
-            for d_ in played:
-                ids.append(next((i_ for i_, v_ in detregs.items() if v_ == d_ and i_ not in ids), -1))
-            processed.append(ids)
+            processed.append(match_ids(played, detregs))
         elif k == "command":
-            ids = []
-            for name, d_, par in commands:
-                ok_ = name == "consume" and par == (sr, sw, ch)
-                ids.append(next((i_ for i_, v_ in detregs.items() if v_ == d_ and i_ not in ids), -1) if ok_ else -1)
-            processed.append(ids)
+            processed.append(match_ids([d_ if (name == "consume" and par == (sr, sw, ch)) else None for name, d_, par in commands], detregs))
         elif k == "joiner":
             # joiner: the ids are not observable; what it wrote is
             nsil = round(Fraction_round(sc["silence"], sr))
@@ -273,6 +295,36 @@ def scenario(sc, tmproot, chooser_factory):
             except Exception:
                 joined_ok = False
             processed.append([d.id for d in tw.detections] if joined_ok else [-1])
+    log = []
+    if logger is not None:
+        det_by = {}
+        for d in tw.detections:
+            det_by.setdefault(d.id, d)
+        tag_of = {"regsave": "SAVE", "player": "PLAY", "command": "COMMAND"}
+        who_of = {tag_of[k]: i + 1 for i, k in enumerate(kinds) if k in tag_of}
+        cmd_seen = 0
+        for th, line in loglines:
+            m = re.match(r"^\[(DET|SAVE|PLAY|COMMAND)\]: Detection (\d+)(.*)$", line, re.S)
+            if not m:
+                log.append([-1, -1, 0])
+                continue
+            tag, did, rest = m.group(1), int(m.group(2)), m.group(3)
+            d = det_by.get(did)
+            ok = d is not None
+            if tag == "DET":
+                ok = ok and rest == " (start: {:.3f}, end: {:.3f}, duration: {:.3f})".format(d.start, d.end, d.duration) and th == "tok"
+                log.append([0, did, int(ok)])
+                continue
+            if tag == "SAVE" and ok:
+                dur = len(detregs[did]) / (sr * sw * ch)
+                ok = rest == " saved as '{}'".format(regtpl.format(id=did, start=d.start, end=d.end, duration=dur))
+            elif tag == "PLAY":
+                ok = ok and rest == " played"
+            elif tag == "COMMAND" and ok:
+                ok = cmd_seen < len(commands) and rest.startswith(" command: 'consume ") and rest.endswith("'")
+                cmd_seen += 1
+            ok = ok and tag in who_of and th == "o%d" % who_of[tag]
+            log.append([who_of.get(tag, -1), did, int(bool(ok))])
     file_ids = []
     fvalid = True
     if saver is not None:
@@ -301,7 +353,8 @@ def scenario(sc, tmproot, chooser_factory):
     stopped = any(e["th"] == "main" and e["pt"] == "put" and e.get("q") == "tok" for e in S.events)
     obs_rec = {"p": p, "stream": stream, "judged": judged[0], "dets": dets, "processed": processed, "status": status, "alive": alive,
                "stopped": stopped, "file": file_ids, "fvalid": bool(fvalid), "joined_ok": joined_ok, "regfiles_ok": regfiles_ok,
-               "printed_ok": printed_ok}
+               "printed_ok": printed_ok, "haslog": logger is not None, "log": log,
+               "loggers": [i + 1 for i, k in enumerate(kinds) if k in ("regsave", "player", "command")] if logger is not None else []}
     impl = {"p": p, "ev": S.events, "kinds": kinds}
     try:
         if saver is not None:
@@ -633,6 +686,9 @@ def chooser_follow(schedule):
     return factory
 
 
+LOG_ALL = [False]
+
+
 def _run_batch(args):
     scs, tmproot, mode = args
     sys.path.insert(0, REPO)
@@ -662,6 +718,9 @@ def _run_batch(args):
 def run_scenarios(scs, tmproot, mode="policy"):
     if not scs:
         return []
+    if LOG_ALL[0]:
+        for sc in scs:
+            sc["log"] = True
     n = len(scs)
     step = max(1, min(40, n // (NCPU * 2) or 1))
     jobs = [(scs[i:i + step], os.path.join(tmproot, f"b{i}"), mode) for i in range(0, n, step)]
@@ -709,7 +768,14 @@ def rand_scenario(rng, tier, prop):
     venergy = rng.random() < .3
     if venergy and ch == 1:
         ch = 2
-    extra = dict(validator="energy" if venergy else "custom", uc=rng.choice(["absent", None, 0, 1, -1, "mix", "any", -2]),
+    if prop == "X03":
+        kinds = [rng.choice(["regsave", "player", "command", "rec"]) for _ in range(rng.choice([1, 2, 3]))]
+        for one in ("regsave", "player", "command"):
+            if kinds.count(one) > 1:
+                kinds = ["rec" if (k == one and i != kinds.index(one)) else k for i, k in enumerate(kinds)]
+        if rng.random() < .4:
+            stop = rng.choice([0, 1, 2, rng.randint(0, 30), rng.randint(0, 120)])
+    extra = dict(log=(prop == "X03" or rng.random() < .5), validator="energy" if venergy else "custom", uc=rng.choice(["absent", None, 0, 1, -1, "mix", "any", -2]),
                  uc_name=rng.choice(["use_channel", "uc"]), eth_name=rng.choice(["energy_threshold", "eth"]))
     return dict(extra, pat=pat, B=B, sr=sr, silence=silence, sw=sw, ch=ch, p=(mn, mx, sl, rng.random() < .3, rng.random() < .3), obs=kinds,
                 saver=saver, cache_blocks=rng.choice([0, 1, 2, 3, 1000]), stop_after=stop, tail=rng.choice([B, rng.randint(1, B)]),
@@ -733,6 +799,8 @@ def long_scenarios(rng, tier, prop):
         pat = []
         while len(pat) < 2 * n:
             pat += [True] * rng.choice([1, 1, 2]) + [False] * rng.choice([1, 1, 2])
+        if n > 5000:
+            pat = [True, False] * n          # one detection per two windows: more than 10^4 detections in one run
         out.append(dict(pat=pat, B=rng.choice([1, 2]), sr=100, silence=0.03, sw=rng.choice([1, 2]), ch=1, p=(1, 2, 0, False, False), obs=kinds,
                         saver=(prop == "C13" and n < 5000), cache_blocks=rng.choice([0, 3]), stop_after=stop, tail=1, seed=rng.random(),
                         style=["random", "slow_observers", "prio", "slow_source", "random"][k_ % 5],     # slow observers: backlogs of hundreds of messages
@@ -789,9 +857,10 @@ def check(prop, tier, replay=None):
     import_auditok()
     V = Verdict(prop, tier)
     wd = workdir("workers_" + prop)
+    LOG_ALL[0] = prop == "X03"
     tmproot = os.path.join(wd, "runs")
     os.makedirs(tmproot, exist_ok=True)
-    rng = random.Random(SEED * 1000 + int(prop[1:]))
+    rng = random.Random(SEED * 1000 + int(prop[1:]) + (500 if prop[0] == "X" else 0))
     V.assumptions += [
         "TLC/SANY/CommunityModules, CPython threads; the controller (harness/sched.py) replaces queue.Queue and Thread.start/join of "
         "auditok.workers and serialises the threads: preemption BETWEEN two scheduling points is not explored (all shared state of "
@@ -799,10 +868,19 @@ def check(prop, tier, replay=None):
         "liveness is checked under weak fairness of every thread's non-timeout steps; main's optional stop request is not fair",
     ]
     # ---- leg M
-    inv = {"C12": ["TypeOK", "C12Safe"], "C13": ["TypeOK", "C13Safe"], "C14": ["TypeOK", "C14Safe", "C12Safe"]}[prop]
+    if prop == "X03":
+        for pset, mf in ([("PSetObs2", 3), ("PSetQuick", 3)] if tier == "quick" else [("PSetObs2", 4), ("PSetQuick", 4), ("PSetJoiner", 4)]):
+            cfg = (f"CONSTANTS MaxFrames = {mf} PSet <- {pset} FixD1 = TRUE FixD2 = TRUE\nSPECIFICATION LSpec\nINVARIANT X03Safe\nINVARIANT C12Safe\n"
+                   "CHECK_DEADLOCK FALSE\n")
+            res = tlc.run("WorkersLog", cfg, wd, name=f"log_{pset}", timeout=3400, mem="16g")
+            tlc.require_ok(res, f"leg M {pset}")
+            V.add_model(f"M:log:{pset}", res)
+            if res["violated"] or not res["ok"]:
+                raise MachineryError(f"leg M {pset}: {res['violated']} / {res['error']}\n" + tlc.counterexample(res, 80))
+    inv = {"C12": ["TypeOK", "C12Safe"], "C13": ["TypeOK", "C13Safe"], "C14": ["TypeOK", "C14Safe", "C12Safe"], "X03": ["TypeOK", "C12Safe"]}[prop]
     psets = {"quick": [("PSetQuick", 4)] + ([("PSetJoiner", 3)] if prop == "C13" else []),
              "thorough": [("PSetQuick", 6), ("PSetObs2", 5), ("PSetCache", 5), ("PSetJoiner", 5)]}[tier]
-    for pset, mf in psets:
+    for pset, mf in ([] if prop == "X03" else psets):
         cfg = (f"CONSTANTS MaxFrames = {mf} PSet <- {pset} FixD1 = TRUE FixD2 = TRUE\nSPECIFICATION Spec\n"
                + "".join(f"INVARIANT {i}\n" for i in inv) + "PROPERTY Termination\nCHECK_DEADLOCK TRUE\n")
         res = tlc.run("WorkersMC", cfg, wd, name=f"mc_{pset}", timeout=3400, mem="16g")
@@ -887,6 +965,15 @@ def check(prop, tier, replay=None):
     V.leg("X", configurations=complete, runs=len(xruns), wall_s=round(time.time() - t1, 2))
     V.leg("T", runs=len(runs), events=sum(len(r[1]["ev"]) for r in runs), statuses=count_status(runs), wall_s=round(time.time() - t0, 2))
     shutil.rmtree(tmproot, ignore_errors=True)
+    if prop == "X03":
+        rc = V.finish(rule="X03 (beyond the list): WorkersLog (log as history variable of Workers) model-checked; every controlled run of the real threads "
+                           "carries a logger whose records, tagged with the writing thread, are judged by WorkersObs!X03")
+        from .common import EVIDENCE, OUT
+        try:
+            shutil.move(os.path.join(EVIDENCE, "X03.json"), os.path.join(OUT, "X03.json"))
+        except OSError:
+            pass
+        return rc
     return V.finish(
         rule="leg M: all interleavings / timeout firings / stop points of the tier configurations (safety + termination under weak fairness); "
              "leg T: controlled executions of the real threads under seeded schedule policies (random, priority, timeout storm, slow "
@@ -904,7 +991,7 @@ def count_status(runs):
 OBS_CFG = "SPECIFICATION Spec\nCONSTRAINT Mon\nPOSTCONDITION Post\nCHECK_DEADLOCK FALSE\n"
 IMPL_CFG = ("CONSTANTS MaxFrames = 1000000 PSet = {} FixD1 = TRUE FixD2 = TRUE\nSPECIFICATION TSpec\nCONSTRAINT Progress\n"
             "POSTCONDITION Post\nCHECK_DEADLOCK FALSE\n")
-BIT = {"C12": 1, "C13": 2, "C14": 4}
+BIT = {"C12": 1, "C13": 2, "C14": 4, "X03": 8}
 
 
 def report_runs(V, prop, runs, wd, leg):
@@ -917,6 +1004,10 @@ def report_runs(V, prop, runs, wd, leg):
     if not runs:
         return
     obs = [r[2] for r in runs]
+    for ob_ in obs:
+        ob_.setdefault("haslog", False)
+        ob_.setdefault("log", [])
+        ob_.setdefault("loggers", [])
     rows, st = judge("WorkersObs", OBS_CFG, obs, wd, "wo_" + leg, weight=lambda x: len(x["stream"]) + 1)
     V.cov["states"] += st
     # step conformance only for runs whose observers are plain workers (the joiner's drain phase is a different thread shape)
